@@ -302,7 +302,8 @@ impl<F: Fl> CWorld<F> {
                 0 => None,
                 1 => Some(vec![]),
                 2 => Some(vec![("a".to_string(), tag)]),
-                _ => Some(vec![("a".to_string(), tag.clone()), ("b".to_string(), format!("{}x", tag))]),
+                // (the second value carries a Graphviz escape sequence: values must reach the text verbatim)
+                _ => Some(vec![("a".to_string(), tag.clone()), ("b".to_string(), format!("{}\\lx", tag))]),
             }
         };
         let fmt = |a: &Attrs| -> String {
